@@ -78,6 +78,7 @@ type SimNode struct {
 	// the events it created beyond the anchor): the same thing as equivocation
 	// from the point of view of every property, so the node is not judged further
 	ReusedIndexStep int
+	traceSeq        int
 	AnchorAtReset    map[int]int // app epoch -> anchor block index the node reset to
 	AnchorRRAtReset  map[int]int
 	Incarnation      int
@@ -433,6 +434,7 @@ type ItxRecord struct {
 	Answered      bool
 	Accepted      bool
 	AcceptedRound int
+	HostInc       int // incarnation of the host when it accepted the request
 }
 
 // Monitor observes the network after every step.
@@ -790,6 +792,22 @@ func (nw *Network) afterStep() {
 	nw.resolveJoins()
 	nw.pollItxs()
 	nw.Rec.observe()
+	if th := os.Getenv("VERIF_TRACE_HEAD"); th != "" {
+		var idx int
+		fmt.Sscanf(th, "%d", &idx)
+		if idx < len(nw.Nodes) && nw.Nodes[idx].Node != nil {
+			n := nw.Nodes[idx]
+			_, seq := n.Core.Head()
+			if seq != n.traceSeq {
+				la := -1
+				if nw.lastActor != nil {
+					la = nw.lastActor.Idx
+				}
+				fmt.Fprintf(os.Stderr, "TRACEHEAD step=%d node %d seq %d -> %d state=%s last actor %d known_own=%d\n", nw.Step, idx, n.traceSeq, seq, n.Node.GetState(), la, n.Core.KnownEvents()[n.ID])
+				n.traceSeq = seq
+			}
+		}
+	}
 	if nw.AfterStepHook != nil && !nw.inHook {
 		nw.inHook = true
 		nw.AfterStepHook(nw)
@@ -939,7 +957,7 @@ func (nw *Network) RequestLeave(a *SimNode) *ItxRecord {
 	}
 	itx := hg.NewInternalTransaction(hg.PEER_REMOVE, *p)
 	itx.Sign(a.Key)
-	rec := &ItxRecord{Itx: itx, Host: a.Idx, Subject: a.Idx, Step: nw.Step}
+	rec := &ItxRecord{Itx: itx, Host: a.Idx, Subject: a.Idx, Step: nw.Step, HostInc: a.Incarnation}
 	a.Node.VerifLockCore(func() { rec.Poll = a.Core.AddInternalTransaction(itx) })
 	nw.Itxs = append(nw.Itxs, rec)
 	nw.Res.count("leave_requests", 1)
